@@ -74,7 +74,9 @@ PROPS = {
         "assumptions": ["mapping list as produced by aggregate: system range inside the hull, pairwise disjoint system ranges, no 64-bit overflow (WfMaps; C13)"],
         "explanation": "C12 theorems over the Lean model of sanitize_stack_copy: totality, output structure (zeros below SP, classified words, zero partial tail), "
                        "length kept, and per word: unchanged iff it qualifies, sentinel otherwise (uses pre-filter soundness and the last-hit cache invariant); "
-                       "counterexample theorems for the two repaired defects.",
+                       "counterexample theorems for the two repaired defects. System_stack_sanitized (Theorems/System.lean): for the request as one function over a paged target memory, the stack the image records for a thread (sanitization on, stack pointer in a mapping of readable pages) is the sanitization of the target's bytes of the recorded range with the thread's stack pointer and its offset in that range; the bytes below the aligned stack pointer are zero in the image.",
+        "extra_modules": ["MdwModel.Theorems.System"],
+        "extra_theorems": ["System_stack_sanitized"],
     },
     "C06": {
         "rule": "real get_stack_info on synthetic layouts (accessible / PROT_NONE guard / unmapped, gaps around the 1 MiB guard distance, top of the "
